@@ -76,7 +76,7 @@ def verus_cmd(debug_assertions, extra=()):
         ext += ['--extern', '%s=%s' % (c, libs[0])]
     cmd = ['verus', 'src/lib.rs', '--crate-type=lib', '--crate-name', 'lipe_find_parser', '--edition', '2021',
            '-L', 'dependency=' + VDEPS] + ext + ['--output-json', '--time', '--error-format=json',
-                                                   '--multiple-errors', '8', '--num-threads', '8']
+                                                   '--multiple-errors', '8', '--num-threads', '8', '--rlimit', '30']
     if not debug_assertions:
         cmd += ['-C', 'debug-assertions=off']
     return cmd + list(extra)
@@ -363,7 +363,7 @@ def _run(pid, P, tier, seed, scratch, t0):
     if tier == 'thorough':
         # proof stability: two more Z3 seeds and a 4x resource limit must give the same verdicts
         for sd in (1, 2):
-            runs.append(run_verus(vdir, True, ['--rlimit', '40', '--smt-option', 'smt.random_seed=%d' % (seed + sd)]))
+            runs.append(run_verus(vdir, True, ['--smt-option', 'smt.random_seed=%d' % (seed + sd)]))
             runs[-1]['cfg'] += ',seed=%d' % (seed + sd)
 
     failures, inconclusive = [], []
